@@ -48,7 +48,12 @@ partial def pEx : P Ex := do
 def pItem : P Item := do
   match (← tok) with
   | "C" => do let x ← ident; let e ← pEx; pure (.const x e)
-  | "G" => do let xs ← counted ident; let e ← pEx; pure (.group xs e)
+  | "G" => do
+    let xs ← counted ident
+    let m ← num
+    let t ← (do if m != 0 then do let t ← ident; pure [t] else pure [])
+    let e ← pEx
+    pure (.group xs t (m == 2) e)
   | "V" => do
     let x ← ident
     let t ← (do if (← num) == 1 then do let t ← ident; pure [t] else pure [])
@@ -90,7 +95,7 @@ def parseOp (line : String) : Option (List (List Nat) × List Item) :=
 def valueNames : List Item → List String
   | [] => []
   | .const x _ :: r => x :: valueNames r
-  | .group xs _ :: r => xs ++ valueNames r
+  | .group xs _ _ _ :: r => xs ++ valueNames r
   | .var x _ _ :: r => x :: valueNames r
   | _ :: r => valueNames r
 
